@@ -719,8 +719,64 @@ func (in *Interp) Equal(a, b Value) (bool, *Err) {
 	return false, errf("= not defined on %s, %s", TypeName(a), TypeName(b))
 }
 
-// contains models '~'.
+// contains models '~'. Lists on the right are searched lazily in order (C08): the search stops at the
+// deciding element; incomparable pairs fall back to the order-independent judgement of containsEager.
 func (in *Interp) contains(a, b Value) (Value, *Err) {
+	if y, ok := b.(*List); ok && !orderOpen(y) {
+		var lookFor []Value
+		if x, isList := a.(*List); isList {
+			xs, e := in.Force(x)
+			if e != nil {
+				return nil, e
+			}
+			lookFor = xs
+		} else {
+			lookFor = []Value{a}
+		}
+		if _, isList := a.(*List); isList && len(lookFor) == 0 {
+			return true, nil
+		}
+		found := make([]bool, len(lookFor))
+		nFound := 0
+		p := y.Iter()
+		for {
+			v, e, ok := p()
+			if e != nil {
+				return nil, e
+			}
+			if !ok {
+				return false, nil
+			}
+			for i, lf := range lookFor {
+				if found[i] {
+					continue
+				}
+				eq, e := in.Equal(lf, v)
+				if e != nil {
+					if e.Unspec {
+						return nil, e
+					}
+					return in.containsEager(a, b)
+				}
+				if eq {
+					found[i] = true
+					nFound++
+					break
+				}
+			}
+			if nFound == len(lookFor) {
+				in.probe(p)
+				return true, nil
+			}
+			if e := in.tick(); e != nil {
+				return nil, e
+			}
+		}
+	}
+	return in.containsEager(a, b)
+}
+
+func (in *Interp) containsEager(a, b Value) (Value, *Err) {
 	switch y := b.(type) {
 	case *List:
 		ys, e := in.forceShort(y)
